@@ -11,6 +11,7 @@ from ._audit import VALID_NODE_CHILD_TYPES, Node, get_tree
 from ._general import (
     BytearrayNode,
     BytesNode,
+    DictNode,
     FunctionNode,
     JsonNode,
     ListNode,
@@ -246,17 +247,6 @@ def walk_tree(
         A dataclass containing the aforementioned information.
 
     """
-    # key_types is not helpful, as it is artificially added by skops to
-    # circumvent the fact that json only allows keys to be strings. It is not
-    # useful to the user and adds a lot of noise, thus skip key_types.
-    if node_name == "key_types":
-        if isinstance(node, ListNode) and node.is_safe():
-            return
-        raise ValueError(
-            "An invalid 'key_types' node was encountered, please report the issue "
-            "here: https://github.com/skops-dev/skops/issues"
-        )
-
     if isinstance(node, dict):
         num_nodes = len(node)
         for i, (key, val) in enumerate(node.items(), start=1):
@@ -312,8 +302,23 @@ def walk_tree(
     if isinstance(node, SKIPPED_TYPES):
         return
 
+    children = node.children
+    if isinstance(node, DictNode):
+        # key_types is not helpful, as it is artificially added by skops to
+        # circumvent the fact that json only allows keys to be strings. It is
+        # not useful to the user and adds a lot of noise, thus skip key_types.
+        # Only the DictNode's own child is meant: a user's key or attribute
+        # may be called "key_types" as well.
+        key_types = children["key_types"]
+        if not (isinstance(key_types, ListNode) and key_types.is_safe()):
+            raise ValueError(
+                "An invalid 'key_types' node was encountered, please report the "
+                "issue here: https://github.com/skops-dev/skops/issues"
+            )
+        children = {k: v for k, v in children.items() if k != "key_types"}
+
     yield from walk_tree(
-        node.children,
+        children,
         node_name=node_name,
         level=level + 1,
     )
